@@ -5,6 +5,7 @@ from .. import e1, gen, harness
 from . import base
 
 PROP = "C07"
+SOLVER = {'functions_encoded': ['emitted IC10 -> vf.ic10.Machine with region monitor']}
 HDR = base.witness.HDR
 
 # fixed witnesses of the known finding: a terminating main followed by a non-inlined function
